@@ -1124,3 +1124,81 @@ Proof.
     intros k Hk. apply scan_allocated; [apply wf_ir_wf, Hwf|]. apply Hidx. now apply in_rev. }
   pose proof (nvars_le_peak p (wf_ir_wf p Hwf) Hnd (last_instr_nonempty p lst El)). lia.
 Qed.
+
+(* ------------------------------------------------------------------ configurations: when cfg_ok holds *)
+Open Scope N_scope.
+
+Lemma parse_dec_acc_app s1 : forall a s2,
+  parse_dec_acc a (s1 ++ s2) = match parse_dec_acc a s1 with Some a' => parse_dec_acc a' s2 | None => None end.
+Proof.
+  induction s1 as [|c s1 IH]; intros a s2; cbn [app parse_dec_acc]; [reflexivity|].
+  destruct ((48 <=? c) && (c <=? 57)); [apply IH|reflexivity].
+Qed.
+
+Lemma dec_digit r : r < 10 -> forall a, parse_dec_acc a [hexchar r] = Some (a * 10 + r).
+Proof.
+  intros Hr a. unfold hexchar. assert (E : (r <? 10) = true) by now apply N.ltb_lt. rewrite E.
+  cbn [parse_dec_acc].
+  assert (E1 : (48 <=? 48 + r) = true) by (apply N.leb_le; lia).
+  assert (E2 : (48 + r <=? 57) = true) by (apply N.leb_le; lia).
+  rewrite E1, E2. cbn [andb]. f_equal. lia.
+Qed.
+
+Lemma print_dec_parse f : forall n l, (0 < f)%nat -> n < 2 ^ N.of_nat f ->
+  exists ds k, print_base_fuel 10 f n l = ds ++ l /\ forall a, parse_dec_acc a ds = Some (a * k + n).
+Proof.
+  induction f as [|f IH]; intros n l Hf Hn; [lia|]. cbn [print_base_fuel].
+  assert (Hr : n mod 10 < 10) by (apply N.mod_lt; lia).
+  pose proof (N.div_mod n 10 ltac:(lia)) as Hdm.
+  destruct (n / 10 =? 0) eqn:Eq.
+  - apply N.eqb_eq in Eq. exists [hexchar (n mod 10)], 10. split; [reflexivity|].
+    intros a. rewrite (dec_digit _ Hr). f_equal. lia.
+  - apply N.eqb_neq in Eq.
+    assert (Hq : n / 10 < 2 ^ N.of_nat f).
+    { apply N.div_lt_upper_bound; [lia|]. rewrite Nat2N.inj_succ, N.pow_succ_r' in Hn. lia. }
+    assert (Hf' : (0 < f)%nat).
+    { destruct f; [|lia]. cbn in Hq. lia. }
+    destruct (IH (n / 10) (hexchar (n mod 10) :: l) Hf' Hq) as (ds & k & E & Hp).
+    exists (ds ++ [hexchar (n mod 10)]), (k * 10). split.
+    + rewrite E, <- app_assoc. reflexivity.
+    + intros a. rewrite parse_dec_acc_app, Hp, (dec_digit _ Hr). f_equal. lia.
+Qed.
+
+Lemma print_decN_inj n m : print_decN n = print_decN m -> n = m.
+Proof.
+  intros E.
+  assert (H : forall x, exists ds, print_decN x = ds /\ parse_dec_acc 0 ds = Some x).
+  { intros x. unfold print_decN.
+    destruct (print_dec_parse (S (N.to_nat (N.size x))) x []) as (ds & k & Ed & Hp); [lia| |].
+    - rewrite Nat2N.inj_succ, N2Nat.id, N.pow_succ_r'. pose proof (N.size_gt x). lia.
+    - exists ds. rewrite Ed, app_nil_r. split; [reflexivity|]. rewrite Hp. f_equal. }
+  destruct (H n) as (d1 & E1 & P1). destruct (H m) as (d2 & E2 & P2).
+  assert (d1 = d2) by congruence. subst. congruence.
+Qed.
+
+Lemma tmpname_inj cfg n m : tmpname cfg n = tmpname cfg m -> n = m.
+Proof.
+  unfold tmpname. intros E. apply app_inv_head in E. apply print_decN_inj in E. now apply Nat2N.inj.
+Qed.
+
+Fixpoint is_prefix (a b : list N) : bool :=
+  match a, b with
+  | [], _ => true
+  | x :: a', y :: b' => (x =? y) && is_prefix a' b'
+  | _ :: _, [] => false
+  end.
+
+Lemma is_prefix_app a : forall r, is_prefix a (a ++ r) = true.
+Proof. induction a as [|x a IH]; intros r; cbn [is_prefix app]; [reflexivity|]. now rewrite N.eqb_refl, IH. Qed.
+
+(* a sufficient condition that is easy to check: the temporary prefix is a prefix of neither name *)
+Theorem cfg_ok_intro cfg : cfg_in cfg <> [] -> cfg_out cfg <> [] -> cfg_in cfg <> cfg_out cfg ->
+  is_prefix (cfg_prefix cfg) (cfg_in cfg) = false -> is_prefix (cfg_prefix cfg) (cfg_out cfg) = false ->
+  cfg_ok cfg.
+Proof.
+  intros H1 H2 H3 H4 H5. constructor; auto.
+  - intros n E. unfold tmpname in E. rewrite <- E, is_prefix_app in H4. discriminate.
+  - intros n E. unfold tmpname in E. rewrite <- E, is_prefix_app in H5. discriminate.
+  - apply tmpname_inj.
+Qed.
+Close Scope N_scope.
